@@ -143,12 +143,13 @@ Definition valid_package_strcase (P : decl_package) : Prop :=
   /\ NoDup (map df_name (all_methods P))
   /\ Forall (fun d => is_query_request (df_req d) = true -> exists root, list_root (df_resp d) = Ok root) (all_methods P)
   /\ all_refs_link (im_schemas (compile_image to_snake P)) = true
-  /\ wf_env (im_schemas (compile_image to_snake P)).
+  /\ wf_env (im_schemas (compile_image to_snake P))
+  /\ flat_free (im_schemas (compile_image to_snake P)).
 
 Lemma valid_package_strcase_valid P : valid_package_strcase P -> valid_package to_snake P.
 Proof.
-  intros (H1 & H2 & H3 & H4 & H5). unfold valid_package.
-  split; [|split; [exact H2|split; [exact H3|split; [exact H4|exact H5]]]].
+  intros (H1 & H2 & H3 & H4 & H5 & H6). unfold valid_package.
+  split; [|split; [exact H2|split; [exact H3|split; [exact H4|split; [exact H5|exact H6]]]]].
   rewrite Forall_forall in H1. rewrite Forall_forall. intros d Hd. destruct (H1 d Hd) as (Hv & Hne & Hf & Hlc).
   unfold wf_decl, df_decl. cbn [dm_verb dm_parts dm_props].
   split; [exact Hv|]. split; [exact Hne|]. split; [exact Hf|].
@@ -194,12 +195,13 @@ Definition valid_package_strcase_d (P : decl_package) : Prop :=
   /\ NoDup (map df_name (all_methods P))
   /\ Forall (fun d => is_query_request (df_req d) = true -> exists root, list_root (df_resp d) = Ok root) (all_methods P)
   /\ all_refs_link (im_schemas (compile_image to_snake P)) = true
-  /\ wf_env (im_schemas (compile_image to_snake P)).
+  /\ wf_env (im_schemas (compile_image to_snake P))
+  /\ flat_free (im_schemas (compile_image to_snake P)).
 
 Lemma valid_package_strcase_d_valid P : valid_package_strcase_d P -> valid_package to_snake P.
 Proof.
-  intros (H1 & H2 & H3 & H4 & H5). unfold valid_package.
-  split; [|split; [exact H2|split; [exact H3|split; [exact H4|exact H5]]]].
+  intros (H1 & H2 & H3 & H4 & H5 & H6). unfold valid_package.
+  split; [|split; [exact H2|split; [exact H3|split; [exact H4|split; [exact H5|exact H6]]]]].
   rewrite Forall_forall in H1. rewrite Forall_forall. intros d Hd. destruct (H1 d Hd) as (Hv & Hne & Hf & Hlc).
   unfold wf_decl, df_decl. cbn [dm_verb dm_parts dm_props].
   split; [exact Hv|]. split; [exact Hne|]. split; [exact Hf|].
